@@ -17,7 +17,7 @@ RULE = (
     "Pairs of runs on one generated configuration (table, pressure pair, nx 3..60, reservoir class). 'dyadic': "
     "times are integer multiples of 2^-q (q 0..30, increments 1..2^12 units, 2..80 steps) and the shift is an "
     "integer multiple of the same unit, so shifted increments are bit-identical and so must be the field and "
-    "both recoveries; 'real': arbitrary shift in [-1e3, 1e3] on a generated grid, compared within a tolerance "
+    "both recoveries; 'real': arbitrary shift in [-1e7, 1e7] on a generated grid, compared within a tolerance "
     "derived from the actual perturbation of the increments; 'constant-schedule' vs scalar setting (bit-identical); "
     "'bad-length' schedules (every length != len(time), including 0, len-1, len+1, 2 len); 'before-simulate' "
     "calls; interpolator laws on strictly increasing grids. Non-trivial = a shift != 0 with >= 3 distinct "
@@ -50,13 +50,15 @@ def strategy_(draw):
         n = draw(st.integers(2, 80))
         incs = [draw(st.integers(1, 4096)) for _ in range(n)]
         start = draw(st.integers(0, 4096))
-        shift = draw(st.one_of(st.integers(1, 2**20), st.integers(-(2**20), -1)))
+        # shifts up to 2^44 units: thousands to billions of times the span of the grid (calendar time in seconds since
+        # an epoch, Julian days); all sums stay exactly representable (< 2^53 units)
+        shift = draw(st.one_of(st.integers(1, 2**20), st.integers(-(2**20), -1), st.integers(2**20, 2**44), st.integers(-(2**44), -(2**20))))
         unit = 2.0**-q
         t = np.concatenate([[start], start + np.cumsum(incs)]).astype(float) * unit
         c["time"] = {"kind": "steps", "steps": [float(x) for x in np.diff(t)], "start": float(t[0]), "label": "dyadic"}
         c["shift"] = float(shift * unit)
     elif kind == "real":
-        c["shift"] = draw(st.one_of(st.floats(-1e3, 1e3), st.floats(-1.0, 1.0)))
+        c["shift"] = draw(st.one_of(st.floats(-1e3, 1e3), st.floats(-1.0, 1.0), st.floats(1e3, 1e7), st.floats(-1e7, -1e3)))
     elif kind == "bad-length":
         c["len_mode"] = draw(st.sampled_from(["zero", "minus1", "plus1", "double", "one", "random"]))
         c["len_frac"] = draw(st.floats(0.0, 3.0))
